@@ -154,6 +154,12 @@ pub fn check_channels(case: &ChanCase, out: &[String]) -> Option<(String, String
 /// (b) gaps between frames written by an otherwise idle client; returns arrival times (virtual µs
 /// since the peer's open was sent) and the time the observation ended
 pub fn run_heartbeat(idle_ms: u32, periods: u32, with_traffic: bool) -> Result<(Vec<u64>, u64), String> {
+    run_heartbeat_with(idle_ms, periods, with_traffic, None)
+}
+
+/// `peer_talks_every`: the peer itself sends an empty frame every so many ms (what arrives must not
+/// postpone what is owed)
+pub fn run_heartbeat_with(idle_ms: u32, periods: u32, with_traffic: bool, peer_talks_every: Option<u32>) -> Result<(Vec<u64>, u64), String> {
     let rt = paused_runtime();
     rt.block_on(async move {
         let (cio, pio) = tokio::io::duplex(1 << 18);
@@ -177,13 +183,21 @@ pub fn run_heartbeat(idle_ms: u32, periods: u32, with_traffic: bool) -> Result<(
         let t0 = tokio::time::Instant::now();
         let mut times = vec![];
         let horizon = Duration::from_millis(idle_ms as u64 * periods as u64);
+        let mut next_talk = peer_talks_every.map(|g| Duration::from_millis(g.max(1) as u64));
         loop {
             let left = horizon.saturating_sub(t0.elapsed());
             if left.is_zero() {
                 break;
             }
-            peer.recv_timeout = left;
+            peer.recv_timeout = match next_talk {
+                Some(t) => left.min(t.saturating_sub(t0.elapsed())).max(Duration::from_micros(1)),
+                None => left,
+            };
             match peer.recv().await {
+                Err(PeerError::Timeout) if next_talk.is_some() && t0.elapsed() < horizon => {
+                    let _ = peer.send_empty().await;
+                    next_talk = Some(t0.elapsed() + Duration::from_millis(peer_talks_every.unwrap_or(1).max(1) as u64));
+                }
                 Ok(Incoming::Frame { channel, performative, .. }) => {
                     times.push(t0.elapsed().as_micros() as u64);
                     // keep sessions going
@@ -367,7 +381,7 @@ pub fn main(opts: &Opts) {
         if let Some(h) = j.get("heartbeat") {
             let idle = h.get("idle_ms").and_then(|x| x.as_u64()).unwrap_or(1000) as u32;
             let traffic = h.get("traffic").and_then(|x| x.as_bool()).unwrap_or(false);
-            let r = run_heartbeat(idle, 8, traffic);
+            let r = run_heartbeat_with(idle, 8, traffic, h.get("peer_talks_every").and_then(|x| x.as_u64()).map(|x| x as u32));
             println!("{:?}", r);
             if let Ok((times, end)) = r {
                 if let Some(d) = worst_gap(&times, end, idle) {
@@ -474,6 +488,22 @@ pub fn main(opts: &Opts) {
                 }
                 Err(e) => report.finding(Finding { kind: "violation", key: "heartbeat-scenario-failed".into(), description: e, replay: json!({"property": prop, "module": "limits", "heartbeat": {"idle_ms": idle, "traffic": traffic}}) }),
             }
+        }
+    }
+    // (b') the peer keeps talking: frames that arrive do not stand in for the frames that are owed
+    for &(idle, gap) in &[(1000u32, 300u32), (1000, 90), (100, 40), (30000, 9000), (7, 3)] {
+        report.evaluations += 1;
+        report.count("heartbeat_cases_with_a_talking_peer");
+        match run_heartbeat_with(idle, if opts.thorough() { 12 } else { 6 }, false, Some(gap)) {
+            Ok((times, end)) => {
+                if times.len() >= 3 {
+                    report.nontrivial_case(fnv(&format!("hbt{}{}", idle, gap)));
+                }
+                if let Some(d) = worst_gap(&times, end, idle) {
+                    report.finding(Finding { kind: "violation", key: "idle-interval-without-a-frame:peer-talking".into(), description: format!("the peer sends an empty frame every {} ms: {}", gap, d), replay: json!({"property": prop, "module": "limits", "heartbeat": {"idle_ms": idle, "traffic": false, "peer_talks_every": gap}}) });
+                }
+            }
+            Err(e) => report.finding(Finding { kind: "violation", key: "heartbeat-scenario-failed".into(), description: e, replay: json!({"property": prop, "module": "limits", "heartbeat": {"idle_ms": idle, "traffic": false, "peer_talks_every": gap}}) }),
         }
     }
     // (c)
